@@ -689,10 +689,11 @@ def build(active_known=frozenset()):
     c.param("self", OBJ(PL))
     c.raises(IndexError)
     c.raises_only_if("the list is empty", (IndexError,), lambda a: z3.Length(sview(a.pre, a.self)) == 0)
-    c.ensures("pop drops exactly the first element",
-              lambda a: z3.And(z3.Length(sview(a.pre, a.self)) > 0,
-                               z3.If(z3.Length(sview(a.pre, a.self)) == 1, a.result == a.eng.lift(llist._EMPTY_SEQ, a.pre.st),
-                                     z3.And(has_class(a.eng, a.result, PL), sview(a.post, a.result) == z3.SubSeq(sview(a.pre, a.self), 1, z3.Length(sview(a.pre, a.self)) - 1)))))
+    # (from the property: the result of an operation on a list is again a value of the list model, so that the next
+    # operation of a sequence - peek, pop, conj - applies to it; popping the last element gives the empty *list*)
+    c.ensures("pop drops exactly the first element and gives a list again - the empty list when nothing is left",
+              lambda a: z3.And(z3.Length(sview(a.pre, a.self)) > 0, has_class(a.eng, a.result, PL),
+                               sview(a.post, a.result) == z3.SubSeq(sview(a.pre, a.self), 1, z3.Length(sview(a.pre, a.self)) - 1)))
 
     c = new(pl + "empty")
     c.param("self", OBJ(PL))
@@ -1003,6 +1004,12 @@ for n in range(4):
     chk("(count (list %r))" % items, len(l), n); chk("(count (queue %r))" % items, len(q), n); chk("(empty list)", list(l.empty()), []); chk("(empty queue)", list(q.empty()), [])
     if n:
         chk("(pop (list %r))" % items, list(l.pop()), items[1:]); chk("(pop (queue %r))" % items, list(q.pop()), items[1:])
+        try:
+            pk = l.pop().peek()
+        except Exception as e:
+            pk = "%s: %s" % (type(e).__name__, e)
+        chk("(peek (pop (list %r)))" % items, pk, items[1] if len(items) > 1 else None)
+        chk("(type (pop (list %r)))" % items, type(l.pop()).__name__, "PersistentList")
     chk("source list %r afterwards" % items, list(l), items); chk("source queue %r afterwards" % items, list(q), items)
     for nm, c in (("list", l), ("queue", q)):
         chk("(meta (with-meta %s x))" % nm, c.with_meta(META2).meta, META2); chk("(meta %s) after with-meta" % nm, c.meta, META); chk("(= %s (with-meta %s x))" % (nm, nm), c.with_meta(META2) == c, True)
